@@ -609,6 +609,12 @@ def run_case(case, prop):
                     break
         if viol:
             break
+    if prop == 'C08' and not viol:
+        # every model handed back must still be one coherent distribution at the end of the history
+        for (m, _, _, k) in returned[:-1]:
+            check_coherent(mbi, m, case, 'model of EST #%d re-checked at the end of the history %s' % (k, seq), 'end-of-history', viol, probes)
+            if viol:
+                break
     # (iv) warm start converges to the cold optimum
     if prop == 'C13' and case.get('conv') and last is not None and not viol and case['metric'] == 'L2':
         v = check_convergence(mbi, case, eng, last, probes)
